@@ -398,6 +398,7 @@ package p9
 //@   requires[C07] bound(recv) ==> readLocked(refof(recv))
 //@   requires[C08] bound(recv) ==> !fenced(refof(recv))
 //@   ghost set $lasterr:error = result1
+//@   ghost set $ret.Dirents:Dirents = result0
 //@   requires[C05] @not-closed own(recv) != 3
 //@   maypanic
 //@ interface File.Readlink
@@ -878,6 +879,7 @@ package p9
 //@   ensures[C08] @fenced-refused old(has(cs.fids, t.Directory)) && old(fenced(cs.fids[t.Directory])) ==> isErr(result, linux.EINVAL) && nocalls()
 //@   requires[C13] @msize-admits-a-reply-frame cs.messageSize == 0 || (11 <= cs.messageSize && cs.messageSize <= maximumLength)
 //@   at File.Readdir requires[C03,C19] @forwards recv == old(cs.fids[t.Directory]).file && arg0 == old(t.Offset) && arg1 == min(old(t.Count), effMsize(cs) - 11)
+//@   ensures[C03,C19] @reply-lists-what-the-backend-returned typeis(result, *rreaddir) ==> unbox(result, *rreaddir).Entries == ghost("$ret.Dirents", Dirents)
 //@   ensures[C13,C19] @count-passed-to-encoder typeis(result, *rreaddir) ==> unbox(result, *rreaddir).Count == min(old(t.Count), effMsize(cs) - 11)
 //@   ensures[C13] @frame-le-msize typeis(result, *rreaddir) ==> 7 + 4 + int(unbox(result, *rreaddir).Count) <= int(effMsize(cs))
 //@   ensures[C15] @backend-error-reported ncalls() > old(ncalls()) && ghost("$lasterr", error) != nil && !isEOF(ghost("$lasterr", error)) ==> isErr(result, errno(ghost("$lasterr", error)))
@@ -1132,6 +1134,7 @@ package p9
 //@ ghostvar $ret.QID QID
 //@ ghostvar $ret.File File
 //@ ghostvar $ret.n int
+//@ ghostvar $ret.Dirents Dirents
 //@ ghostvar $lasterr error
 //@ ghostvar $closeerr error
 //@ ghostvar $curTag tag
@@ -1750,19 +1753,19 @@ package p9
 //@ declare psize(es []Dirent, k int) int
 //@ func (*rreaddir).encode
 //@   requires psize(r.Entries, 0) == 0 && forall(k, 0, len(r.Entries), psize(r.Entries, k+1) == psize(r.Entries, k) + 24 + len(r.Entries[k].Name))
-//@   requires[C01,C13] forall(j, 0, len(r.Entries), len(r.Entries[j].Name) <= 65535)
-//@   requires[C01,C13] @list-fits-the-address-space len(r.Entries) <= 1000000
+//@   requires[C01,C13,C19] forall(j, 0, len(r.Entries), len(r.Entries[j].Name) <= 65535)
+//@   requires[C01,C13,C19] @list-fits-the-address-space len(r.Entries) <= 1000000
 //@   modifies $wr, b.data, arrays(byte), self.Count, self.payload
 //@   ensures[C13,C19] @payload-within-requested-count len(r.payload) <= int(old(r.Count))
 //@   ensures[C01,C13] @count-is-payload-length r.Count == uint32(len(r.payload)) && len(r.payload) >= 0
 //@   ensures[C01] @wire-layout wr(b) == snoc32(old(wr(b)), r.Count)
 //@   ensures[C01,C13] @encoded-size len(b.data) == old(len(b.data)) + 4
-//@   ensures[C01] @longest-prefix-of-whole-entries-that-fits exists(k, 0, len(r.Entries) + 1, len(r.payload) == psize(old(r.Entries), k) && (k == len(r.Entries) || psize(old(r.Entries), k + 1) > int(old(r.Count))))
+//@   ensures[C01,C19] @longest-prefix-of-whole-entries-that-fits exists(k, 0, len(r.Entries) + 1, len(r.payload) == psize(old(r.Entries), k) && (k == len(r.Entries) || psize(old(r.Entries), k + 1) > int(old(r.Count))))
 //@   nopanic
-//@   loop 0 invariant[C01,C13] 0 <= rangeindex + 1 && rangeindex + 1 <= len(r.Entries)
-//@   loop 0 invariant[C01,C13] 0 <= payloadSize && payloadSize <= int(r.Count) && payloadSize <= len(entriesBuf.data)
-//@   loop 0 invariant[C01,C13] r.Count == old(r.Count) && wr(b) == old(wr(b)) && b.data == old(b.data) && r.Entries == old(r.Entries)
-//@   loop 0 invariant[C01] @all-entries-so-far-are-in payloadSize == len(entriesBuf.data) && payloadSize == psize(r.Entries, rangeindex + 1)
+//@   loop 0 invariant[C01,C13,C19] 0 <= rangeindex + 1 && rangeindex + 1 <= len(r.Entries)
+//@   loop 0 invariant[C01,C13,C19] 0 <= payloadSize && payloadSize <= int(r.Count) && payloadSize <= len(entriesBuf.data)
+//@   loop 0 invariant[C01,C13,C19] r.Count == old(r.Count) && wr(b) == old(wr(b)) && b.data == old(b.data) && r.Entries == old(r.Entries)
+//@   loop 0 invariant[C01,C19] @all-entries-so-far-are-in payloadSize == len(entriesBuf.data) && payloadSize == psize(r.Entries, rangeindex + 1)
 
 //@ fparam recv.lookup
 //@   params t, mt
